@@ -5,7 +5,7 @@
    are runtime behaviour the model cannot exhibit: they are observed by the
    crash probes of gen/c06.py only (C06 is partial, see DESIGN.md). *)
 From FendV Require Import Base.Prelude Text.Json Text.JsonProofs
-  Crash.Superscript Crash.SuperscriptProofs.
+  Crash.Superscript Crash.SuperscriptProofs Crash.Utf8 Crash.Utf8Proofs.
 Open Scope N_scope.
 
 (* json::escape_string never reaches one of its four unwrap()s on Unicode text *)
@@ -51,6 +51,25 @@ Print Assumptions C06_superscript_original_refuted.
 Theorem C06_ipow_selector_total : forall y, exists r, ipow_selector y = Ok r /\ r = y mod 4 /\ r < 4.
 Proof. exact ipow_selector_total. Qed.
 Print Assumptions C06_ipow_selector_total.
+
+(* units::get_completions_for_prefix: `name.split_at(prefix.len())` after
+   `name.starts_with(prefix)` never panics for UTF-8 strings (every Rust &str),
+   whatever the prefix -- including prefixes ending in multi-byte characters --
+   and the inserted text is exactly the rest of the name *)
+Theorem C06_completion_no_panic : forall ns ps,
+  forallb Utf8.is_scalar ns = true -> forallb Utf8.is_scalar ps = true ->
+  match completion_of (enc ns) (enc ps) with
+  | Ok None => True
+  | Ok (Some (display, insert)) => display = enc ns /\ exists rs, ns = ps ++ rs /\ insert = enc rs
+  | Err _ | Panic _ => False
+  end.
+Proof. exact completion_of_ok. Qed.
+Print Assumptions C06_completion_no_panic.
+
+Example C06_completion_nontrivial :
+  completion_of (enc [181; 109]) (enc [181]) = Ok (Some (enc [181; 109], enc [109]))
+  /\ split_at (enc [233]) 1 = Panic 1.
+Proof. split; vm_compute; reflexivity. Qed.
 
 Example C06_superscript_nontrivial :
   sup_exponent [0; 1] = Ok 10 /\ sup_exponent [1;0;0;0;0;0;0;0;0;0;0;0;0;0;0;0;0;0;0;0;1] = Err EExpTooLarge.
